@@ -125,6 +125,8 @@ struct Handle {
     cursor_known: bool,
     /// write position of an OUTPUT handle
     wpos: usize,
+    /// length of the file when this handle was opened
+    len_at_open: usize,
     rec_len: usize,
     field_lists: Vec<Vec<(usize, String)>>,
     current_fields: Option<usize>,
@@ -635,6 +637,16 @@ impl<'a> Model<'a> {
                 ),
             ),
         }
+    }
+
+    /// Text that an APPEND writer has added to `name` and not closed yet: the property
+    /// promises it to readers "once closed"; until then another handle may or may not see it
+    /// (an implementation may buffer).
+    fn has_unclosed_text(&self, name: &str) -> bool {
+        let len = self.store.get(name).map(|v| v.len()).unwrap_or(0);
+        self.handles
+            .values()
+            .any(|h| h.name == name && h.mode == Mode::Append && len > h.len_at_open)
     }
 
     fn span_of(&self, stmt: StmtId) -> Option<(u32, u32, u32)> {
@@ -1796,6 +1808,11 @@ impl<'a> Model<'a> {
                 if !hd.cursor_known {
                     return Err(Stop::Early("EOF() on a handle whose cursor is unknown".into()));
                 }
+                if self.has_unclosed_text(&hd.name) {
+                    return Err(Stop::Early(
+                        "read of a file while an open APPEND writer has text in it that is not closed yet".into(),
+                    ));
+                }
                 let len = self.store.get(&hd.name).map(|v| v.len()).unwrap_or(0);
                 Val::I(if hd.cursor >= len { -1 } else { 0 })
             }
@@ -2569,6 +2586,7 @@ impl<'a> Model<'a> {
                 cursor: 0,
                 cursor_known: true,
                 wpos: 0,
+                len_at_open: self.store.get(name).map(|v| v.len()).unwrap_or(0),
                 rec_len: len.unwrap_or(0).max(0) as usize,
                 field_lists: vec![],
                 current_fields: None,
@@ -2613,6 +2631,11 @@ impl<'a> Model<'a> {
                     if !hd.cursor_known {
                         return Err(Stop::Early(
                             "read from a handle whose cursor is unknown after a fault".into(),
+                        ));
+                    }
+                    if self.has_unclosed_text(&hd.name) {
+                        return Err(Stop::Early(
+                            "read of a file while an open APPEND writer has text in it that is not closed yet".into(),
                         ));
                     }
                 }
